@@ -56,6 +56,11 @@ struct World {
   int rmAtKill{0};
   std::vector<std::string> rmPaths;
   int nKillCalls{0};
+  // swap stream: inside the first kill(2) aimed at one of these pids the cgroup directory they live under is renamed out of
+  // the tree and a stranger with the same layout appears at its path (swapFn, set by the harness)
+  std::set<std::string> swapPids;
+  std::function<void()> swapFn;
+  bool swapped{false};
 };
 
 inline World g_w;
@@ -186,6 +191,13 @@ int kill(pid_t pid, int sig) {
     bool r = g_rec;
     g_rec = false;
     for (auto& p : g_w.rmPaths) vh::rmrf(g_w.root + "/" + p);
+    g_rec = r;
+  }
+  if (!g_w.swapped && g_w.swapFn && g_w.swapPids.count(std::to_string(pid))) {
+    g_w.swapped = true;
+    bool r = g_rec;
+    g_rec = false;
+    g_w.swapFn();
     g_rec = r;
   }
   errno = err;
